@@ -30,7 +30,7 @@ type c14Src struct {
 	mcPeer       int
 	mcPort       int
 	datagramSize int
-	left2        int // receive-side stream offset (mcast-write)
+	left2        int    // receive-side stream offset (mcast-write)
 	empty        []bool // datagram i is empty (reads of it complete at once with n=0 or EOF)
 	recvIdx      int
 }
